@@ -1,32 +1,40 @@
 """C04  Linear, parity and mapping constraint builders mean what their names say.
 
-Four exhaustive parts, every case evaluated on ALL 2^N assignments of the
+Five exhaustive parts, every case evaluated on ALL 2^N assignments of the
 resulting formula (N = F.number_of_variables()):
 
-lin    every literal list of the scope (all polarity patterns over 0..5
-       variables + lists with repeated / opposite literals, gaps and
-       pre-declared variables), given as list, tuple, generator and - where
-       the list is an arithmetic progression - as a range object, through
-       every builder of CNF (add_linear with its 6 operators, cardinality_*,
-       loose/strict majority/minority, add_parity) and of OPB (cardinality_*,
-       majorities, add_parity), every constant -2..n+2, with check=True (fresh
-       formula) and check=False (variables declared beforehand).
+lin    every literal list of the scope (all polarity patterns over 0..7
+       variables, 0..9 in the thorough tier, + lists with repeated / opposite
+       literals, gaps and pre-declared variables), given as list, tuple,
+       generator and - where the list is an arithmetic progression - as a
+       range object, through every builder of CNF (add_linear with its 6
+       operators, cardinality_*, loose/strict majority/minority, add_parity
+       with 0/1/True/False) and of OPB (cardinality_*, majorities,
+       add_parity), every constant -2..n+2, with check=True (fresh formula)
+       and check=False (variables declared beforehand).
        Oracle: the arithmetic meaning  #true literals  op  constant
        (2*#true op n for majorities, XOR for parity), bit-sliced counter on
        the literal columns.
+seq    every ordered pair of builder calls on one formula with the SAME list
+       object passed twice (<=3 literals, <=4 thorough): the formula means the
+       conjunction on the literals as given (catches in-place modification of
+       the caller's list and interference between constraints).
 nrm    normalize_opb and OPB.add_constraint on every coefficient vector of
-       {-2,-1,1,2,3}^(<=3) x every polarity pattern (plus repeated/opposite
-       variables) x 5 operators x degrees -4..8.  Oracle: per-assignment
-       integer arithmetic on the un-normalised constraint; normal form =
-       positive coefficients and operator in {>=, ==}.
+       {-2,-1,1,2,3}^(<=3) (<=4 thorough) x every polarity pattern (plus
+       repeated / opposite variables and a gap) x 5 operators x degrees -4..8
+       (-6..11).  Oracle: per-assignment integer arithmetic on the
+       un-normalised constraint; normal form = positive coefficients and
+       operator in {>=, ==}.
 map    complete / functional / injective / surjective / non-decreasing
        requirements, every non-empty subset of them, on unary mappings
-       n,m<=3, sparse mappings over all bipartite graphs <=3x3, binary
-       mappings n<=3, m<=6, in CNF and OPB, with 0 or 1 variables declared
-       before the group.  Oracle: the relation R = {(i,j): "f maps i to j"}
-       decoded from the group (unary: variable f(i,j); binary: the bits
-       v(i,k-1)..v(i,0) spell j and j<m) and the textbook definition of each
-       requirement on R; closed-form counts of functions as corollary.
+       n,m<=4, sparse mappings over all bipartite graphs <=3x3 and 2x4, 4x2,
+       1x5, 5x1 (+3x4, 4x3 thorough), binary mappings n<=4, m<=9 with <=12
+       bits (n<=5, m<=17, <=16 bits thorough; m not a power of two included),
+       in CNF and OPB, with 0 or 1 variables declared before the group.
+       Oracle: the relation R = {(i,j): "f maps i to j"} decoded from the
+       group (unary: variable f(i,j); binary: the bits v(i,k-1)..v(i,0) spell
+       j and j<m) and the textbook definition of each requirement on R;
+       closed-form counts of functions as an independent corollary.
 forbid BinaryMappingVariables.forbid(i,j) for every i, every j<2^k: the clause
        is false exactly when the bits of i spell j.
 """
@@ -47,8 +55,9 @@ RULE = ('lin: every (class, literal list, container, check flag, builder, operat
         'discriminates); cases are distinct by construction (each tuple enumerated once)')
 ASSUMPTIONS = [
     'bounded scope: <=7 literals (9 thorough) + fixed irregular lists + 2 seed-rotated longer lists; constants -2..n+2; '
-    'coefficients {-2,-1,1,2,3}^<=3 (^<=4 thorough), degrees -4..8 (-6..11); unary n,m<=3 (4), '
-    'bipartite graphs <=3x3 (+2x4,4x2 thorough), binary n<=3, m<=6 (n<=4, m<=9)',
+    'coefficients {-2,-1,1,2,3}^<=3 (^<=4 thorough), degrees -4..8 (-6..11); pairs of calls on <=3 (4) '
+    'literals; unary n,m<=4 (n*m<=20 thorough), bipartite graphs <=3x3,2x4,4x2,1x5,5x1 (+3x4,4x3 '
+    'thorough), binary n<=4, m<=9, <=12 bits (n<=5, m<=17, <=16 bits)',
     'trusted reference: engine.tt counters (self-tested against a per-assignment evaluator) and '
     'per-assignment integer arithmetic for the un-normalised pseudo-Boolean constraints',
     '"f maps i to j" is decoded from the variable group: unary variable f(i,j); binary bits '
@@ -224,15 +233,14 @@ def lin_check(case, R=None):
             R.nt = (k == 'models:proper')
     if sym is None:
         return []
-    key = '%s:%s:%s' % (lin_family(case), case['cont'], sym)
+    # the container is part of the key only when the same call succeeds
+    # (or fails differently) with a plain list
+    key = '%s:%s' % (lin_family(case), sym)
     if case['cont'] != 'list':
-        # is the failure specific to the container?  re-run with a list
         alt = dict(case)
         alt['cont'] = 'list'
-        if lin_run(alt)[0] == sym:
-            key = '%s:%s' % (lin_family(case), sym)
-    elif case['cont'] == 'list':
-        key = '%s:%s' % (lin_family(case), sym)
+        if lin_run(alt)[0] != sym:
+            key = '%s:%s:%s' % (lin_family(case), case['cont'], sym)
     return [{'key': key,
              'what': '%s.%s(%s %r%s%s, check=%r) with %d variables declared before: %s' % (
                  case['cls'], case['meth'], case['cont'], case['lits'],
@@ -356,7 +364,7 @@ def seq_check(case, R=None):
             break
     else:
         fams = [lin_family({'cls': case['cls'], 'meth': m_, 'op': o_}) for (m_, o_, _) in calls]
-        key = 'seq:%s then %s:%s' % (fams[0], fams[1], sym)
+        key = 'seq:after %s:%s' % (fams[0], sym)
     return [{'key': key,
              'what': '%s: calls %r in this order on the same list object %r: %s' % (
                  case['cls'], calls, lits, text),
@@ -465,8 +473,9 @@ def nrm_check(case, R=None):
     try:
         got = arith_models(N, res[:-2], res[-2], res[-1])
         if via != 'normalize_opb' and tt.formula_models(F) != got:
-            bad('harness', 'engine.tt disagrees with per-assignment arithmetic on %r' % (res,))
-    except (ValueError, IndexError) as e:
+            # not a property violation: the two reference evaluators disagree
+            raise AssertionError('engine.tt disagrees with per-assignment arithmetic on %r' % (res,))
+    except ValueError as e:
         bad('literal-range', '%r in %r' % (e, res))
         return out
     if R is not None:
@@ -709,9 +718,13 @@ def map_check(case, R=None):
     # ---- narrow the key: which single requirements fail alone, both classes?
     culprit = reqs
     if len(reqs) > 1:
-        singles = [r for r in reqs if map_run(case, [r])[0] not in (None, 'refused')]
-        if singles:
-            culprit = singles
+        alone = [(r, map_run(case, [r])[0]) for r in reqs]
+        same = [r for r, s1 in alone if s1 == sym]
+        failing = [r for r, s1 in alone if s1 not in (None, 'refused')]
+        if same:
+            culprit = same
+        elif failing:
+            culprit = failing
     key = '%s:%s:%s' % (case['kind'], '+'.join(culprit), sym)
     other = dict(case)
     other['cls'] = 'OPB' if case['cls'] == 'CNF' else 'CNF'
